@@ -98,6 +98,9 @@ func Main(args []string) int {
 				}
 			}
 		}
+		if strings.HasPrefix(*dump, "callers:") {
+			p.DumpCallers((*dump)[8:])
+		}
 		if *dump == "funcs" {
 			for _, f := range p.Funcs {
 				fmt.Println(FuncName(f), p.Pos(f.Pos()))
